@@ -107,7 +107,9 @@ def h_flow(t, part):
     bin_sent = 0
     for step in range(part['n']):
         bfr = worlds.encode_frames(w.P(packet.EVENT, data=['ev', b'bystander-bytes'], namespace='/a'))
-        w.recv('e2', bfr[0])            # a bystander is in the middle of a binary event while the offender acts
+        straddle = part.get('straddle', True)
+        if straddle:
+            w.recv('e2', bfr[0])        # a bystander is in the middle of a binary event while the offender acts
         before = bystander_view(w, by)
         ncalls = len(calls)
         own_before = {w.sid('e0', n) for n in ('/', '/a')} - {None}
@@ -170,6 +172,8 @@ def h_flow(t, part):
             return Fail('hostile:bystander-callback-fired', repr(cb_fired))
         # the bystander's binary event completes now
         nb = len(calls)
+        if not straddle:
+            w.recv('e2', bfr[0])        # (without straddling: the bystander's whole binary event comes after the offender's frames)
         w.recv('e2', bfr[1])
         if calls[nb:] != [('ev', b2, (b'bystander-bytes',))]:
             return Fail('hostile:bystander-binary-event-lost', 'after step %d: %r; contained %r' % (step, calls[nb:], w.eio.contained[-2:]))
@@ -404,11 +408,15 @@ def flow_parts(tier):
             out += [{'async': a, 'n': 1, 'palette': 'full', 'first': f} for f in (1, 2)]
             out += [{'async': a, 'n': 2, 'palette': 'small', 'first': [0, ty]} for ty in range(4)]
             out += [{'async': a, 'n': 2, 'palette': 'small', 'first': f} for f in (1, 2)]
+            # the same without a bystander's binary event straddling the offender's frames
+            out += [{'async': a, 'n': 1, 'palette': 'full', 'first': [0, ty], 'straddle': False} for ty in range(10)]
+            out += [{'async': a, 'n': 2, 'palette': 'small', 'first': [0, ty], 'straddle': False} for ty in range(4)]
         else:
             out += [{'async': a, 'n': 2, 'palette': 'full', 'first': [0, ty]} for ty in range(10)]
             out += [{'async': a, 'n': 2, 'palette': 'full', 'first': f} for f in (1, 2)]
             out += [{'async': a, 'n': 3, 'palette': 'small', 'first': [0, ty]} for ty in range(4)]
             out += [{'async': a, 'n': 3, 'palette': 'small', 'first': f} for f in (1, 2)]
+            out += [{'async': a, 'n': 2, 'palette': 'full', 'first': [0, ty], 'straddle': False} for ty in range(10)]
     return out
 
 
